@@ -11,4 +11,6 @@ static inline void vec_tab__push_back(vec_tab *v, mpz_t *t) { (void)t; __CPROVER
 __mpz_struct new_scratch[1];
 mpz_t table_scratch[TMCG_MAX_FPOWM_T];
 #define __verif_new_array(sz, n) ((n) == 1UL ? (void *)new_scratch : (void *)table_scratch)
+#undef __verif_new_array_zero
+#define __verif_new_array_zero(sz, n) __verif_new_array((sz), (n))
 static inline void tmcg_mpz_fpowm_init(mpz_t *t) { (void)t; /* mpz_init of every entry */ }
